@@ -198,6 +198,13 @@ class Core:
                     nxt = z3.simplify(off + p_.length())
                     st.assume(uf(arr, nxt) - uf(arr, off) == pc_)
                     off = nxt
+            if k == "list" and sort.args[0].kind == "str" and len(v.pieces) > 1 and hasattr(self, "join_measures"):
+                # the same sum-congruence instances for the join measures of a list of strings (joinlen / joincells of the
+                # stored list are the sums over its pieces)
+                ln_, ce_ = self.join_measures(seqs.lit_str(""), v, st)
+                ln2_, ce2_ = self.join_measures(seqs.lit_str(""), seqs.view(arr, z3.IntVal(0), n, sort.args[0]), st)
+                st.assume(ln2_ == ln_)
+                st.assume(ce2_ == ce_)
             return self.U.z3sort(sort).mk(arr, n)
         if k == "tuple":
             if isinstance(v, VTuple):
